@@ -28,7 +28,7 @@ IsWalk(I, path) ==
   /\ \A j \in 1..Len(path) : StateExists(I, path[j].st)
   /\ \A j \in 1..(Len(path) - 1) : LegalMove(I, path[j].st, path[j + 1].st)
 
-\* node_path_to_only_nodes (without jumps); << "ERR" >> where the code raises
+\* node_path_to_only_nodes (without jumps); << -1 >> where the code raises
 RECURSIVE OnlyNodesFrom(_, _, _, _, _)
 OnlyNodesFrom(sts, j, prevState, prevNode, acc) ==
   IF j > Len(sts) THEN acc
@@ -43,14 +43,14 @@ OnlyNodesFrom(sts, j, prevState, prevNode, acc) ==
        ELSE IF s[2] = prevNode THEN
             (IF s[1] # prevNode THEN OnlyNodesFrom(sts, j + 1, s, s[1], Append(acc, s[1]))
              ELSE OnlyNodesFrom(sts, j + 1, s, prevNode, acc))
-       ELSE << "ERR" >>
+       ELSE << -1 >>
 OnlyNodes(sts) ==
   IF Len(sts) = 0 THEN << >>
   ELSE IF IsEdge(sts[1]) THEN OnlyNodesFrom(sts, 2, sts[1], sts[1][2], <<sts[1][1], sts[1][2]>>)
   ELSE OnlyNodesFrom(sts, 2, sts[1], sts[1][1], <<sts[1][1]>>)
 \* C04, second sentence: pairwise adjacent nodes without immediate repeats
 NodesAdjacent(I, ns) ==
-  /\ ns # << "ERR" >>
+  /\ ns # << -1 >>
   /\ \A j \in 1..(Len(ns) - 1) : ns[j] # ns[j + 1] /\ (ns[j + 1] \in NbrSet(I, ns[j]) \/ ns[j] \in NbrSet(I, ns[j + 1]))
 
 \* C03: alignment of a best path with the observations
